@@ -4,6 +4,7 @@ package mc
 
 import (
 	"fmt"
+	tiertypes "github.com/elys-network/elys/x/tier/types"
 	"sort"
 
 	"cosmossdk.io/math"
@@ -746,6 +747,38 @@ func NewOpLib() *OpLib {
 	l.Add("estaking_withdraw_lp1", "estaking_withdraw", 0, func(w *World, p *BlockPlan) {
 		p.Txs = one("lp1", &estypes.MsgWithdrawAllRewards{DelegatorAddress: w.A("lp1").Addr.String()})
 	})
+	// message handlers the first alphabets never sent (found by the union coverage audit)
+	l.Add("estaking_withdraw_reward_lp1", "estaking_withdraw", 0, func(w *World, p *BlockPlan) {
+		p.Txs = one("lp1", &estypes.MsgWithdrawReward{DelegatorAddress: w.A("lp1").Addr.String(), ValidatorAddress: w.ValAddr.String()})
+	})
+	l.Add("estaking_withdraw_elys_rewards_lp1", "estaking_withdraw", 0, func(w *World, p *BlockPlan) {
+		p.Txs = one("lp1", &estypes.MsgWithdrawElysStakingRewards{DelegatorAddress: w.A("lp1").Addr.String()})
+	})
+	l.Add("stake_eden_lp1", "commit", 0, func(w *World, p *BlockPlan) {
+		cm := w.App.CommitmentKeeper.GetCommitments(w.RCtx(), w.A("lp1").Addr)
+		amt := cm.GetClaimedForDenom("ueden").QuoRaw(2)
+		if !amt.IsPositive() {
+			amt = I(1)
+		}
+		p.Txs = one("lp1", &ctypes.MsgStake{Creator: w.A("lp1").Addr.String(), Asset: "ueden", Amount: amt, ValidatorAddress: w.ValAddr.String()})
+	})
+	l.Add("unstake_eden_lp1", "uncommit", 0, func(w *World, p *BlockPlan) {
+		amt := w.CommittedOf(w.A("lp1").Addr, "ueden").QuoRaw(2)
+		if !amt.IsPositive() {
+			amt = I(1)
+		}
+		p.Txs = one("lp1", &ctypes.MsgUnstake{Creator: w.A("lp1").Addr.String(), Asset: "ueden", Amount: amt, ValidatorAddress: w.ValAddr.String()})
+	})
+	l.Add("tier_set_portfolio_t1", "tier", 0, func(w *World, p *BlockPlan) {
+		p.Txs = one("t1", &tiertypes.MsgSetPortfolio{Creator: w.A("t1").Addr.String(), User: w.A("lp1").Addr.String()})
+	})
+	for _, v := range []struct{ n, amt, depth string }{{"deep", "50000000000000", "0.02"}, {"thin", "1000", "0.5"}, {"depth1", "5000000000000", "1"}} {
+		v := v
+		l.Add("feed_ext_liquidity_p1_"+v.n, "feed_ext", 0, func(w *World, p *BlockPlan) {
+			p.Txs = one("feeder", &ammtypes.MsgFeedMultipleExternalLiquidity{Sender: w.A("feeder").Addr.String(), Liquidity: []ammtypes.ExternalLiquidity{{PoolId: 1, AmountDepthInfo: []ammtypes.AssetAmountDepth{
+				{Asset: "ATOM", Amount: Dec(v.amt), Depth: Dec(v.depth)}, {Asset: "USDC", Amount: Dec(v.amt), Depth: Dec(v.depth)}}}}})
+		})
+	}
 	l.Add("unstake_elys_lp1_all", "unstake", 0, func(w *World, p *BlockPlan) {
 		p.Txs = one("lp1", &ctypes.MsgUnstake{Creator: w.A("lp1").Addr.String(), Asset: "uelys", Amount: I(1e9), ValidatorAddress: w.ValAddr.String()})
 	})
